@@ -14,6 +14,7 @@ import (
 	"fmt"
 	"os"
 	"path/filepath"
+	"sort"
 	"strings"
 	"sync"
 	"time"
@@ -172,7 +173,7 @@ func flowCMain(pkg string, coroutine bool, hists []flowHistory, use []bool) stri
 			if coroutine {
 				fmt.Fprintf(&b, "      wuffs_base__status s = %s__run(&f, %d, %d, data, &src);\n", st, a.N, a.V)
 				fmt.Fprintf(&b, "      suspended = wuffs_base__status__is_suspension(&s);\n")
-				fmt.Fprintf(&b, "      obs_%s(&f, s.repr ? s.repr : \"ok\", 1, &src, data);\n", pkg)
+				fmt.Fprintf(&b, "      obs_%s(&f, s.repr ? (strncmp(s.repr, \"$base: \", 7) ? s.repr : s.repr + 7) : \"ok\", 1, &src, data);\n", pkg)
 				b.WriteString("      if (wuffs_base__status__is_error(&s)) return 0;\n")
 			} else {
 				fmt.Fprintf(&b, "      %s__run(&f, %d, %d, data, &src);\n", st, a.N, a.V)
@@ -285,7 +286,15 @@ func flowCCompare(r *hlib.Run, results []*flowResult, maxProgs int) {
 	}
 	var mu sync.Mutex
 	var wg sync.WaitGroup
-	sem := make(chan struct{}, 6)
+	nullPlusZeroNoted := false
+	type ordered struct {
+		order int
+		f     hlib.Failure
+	}
+	var fails []ordered
+	var nullNote string
+	nullOrder := 1 << 60
+	sem := make(chan struct{}, 3)
 	for bi, jb := range jobs {
 		wg.Add(1)
 		go func(bi int, jb job) {
@@ -304,7 +313,7 @@ func flowCCompare(r *hlib.Run, results []*flowResult, maxProgs int) {
 				out, stderr, err := hlib.GenPkg(ct.wuffsC, pkgs[i], path)
 				if err != nil {
 					mu.Lock()
-					r.Fail("flow-c:wuffs-c-rejects-accepted-program", "wuffs-c gen fails on a program that lang/check accepts: "+firstLineOf(string(stderr)), res.Src)
+					fails = append(fails, ordered{(jb.lo + i) * 1000, hlib.Failure{Key: "flow-c:wuffs-c-rejects-accepted-program", Desc: "wuffs-c gen fails on a program that lang/check accepts: " + firstLineOf(string(stderr)), Replay: res.Src}})
 					mu.Unlock()
 					continue
 				}
@@ -371,7 +380,19 @@ func flowCCompare(r *hlib.Run, results []*flowResult, maxProgs int) {
 								break
 							}
 						}
-						r.Fail("flow-c:trap-in-accepted-program", "the C generated for an accepted program traps under ASan/UBSan: "+msg, replay)
+						if strings.Contains(msg, "applying zero offset to null pointer") {
+							// NULL + 0 in a base helper (e.g. wuffs_base__slice_u8__subslice_i on the
+							// zero-valued slice): undefined behaviour in C, but the subject of C03 /
+							// C08 (reported there), not a false fact
+							r.Count("flow:c-compare:ubsan-null-plus-zero(reported-to-C03)")
+							nullPlusZeroNoted = true
+							if o := (jb.lo+i)*1000 + hi; o < nullOrder {
+								nullOrder = o
+								nullNote = "flow C comparison: UBSan `applying zero offset to null pointer` in generated C of an accepted program (C03's family): " + msg + "\n" + replay
+							}
+						} else {
+							fails = append(fails, ordered{(jb.lo+i)*1000 + hi, hlib.Failure{Key: "flow-c:trap-in-accepted-program", Desc: "the C generated for an accepted program traps under ASan/UBSan: " + msg, Replay: replay}})
+						}
 					case strings.Join(got, "\n") != strings.Join(want, "\n"):
 						k := 0
 						for k < len(got) && k < len(want) && got[k] == want[k] {
@@ -384,8 +405,8 @@ func flowCCompare(r *hlib.Run, results []*flowResult, maxProgs int) {
 						if k < len(want) {
 							w = want[k]
 						}
-						r.Fail("flow-c:interpreter-differs-from-generated-c",
-							fmt.Sprintf("call %d of the history: generated C gives %q, the reference interpreter %q", k, g, w), replay)
+						fails = append(fails, ordered{(jb.lo+i)*1000 + hi, hlib.Failure{Key: "flow-c:interpreter-differs-from-generated-c",
+							Desc: fmt.Sprintf("call %d of the history: generated C gives %q, the reference interpreter %q", k, g, w), Replay: replay}})
 					default:
 						r.Count("flow:c-compare:agree")
 					}
@@ -395,4 +416,11 @@ func flowCCompare(r *hlib.Run, results []*flowResult, maxProgs int) {
 		}(bi, jb)
 	}
 	wg.Wait()
+	sort.Slice(fails, func(i, j int) bool { return fails[i].order < fails[j].order })
+	for _, x := range fails {
+		r.Fail(x.f.Key, x.f.Desc, x.f.Replay)
+	}
+	if nullPlusZeroNoted {
+		r.Note(nullNote)
+	}
 }
